@@ -1,6 +1,6 @@
 SPECIFICATION Spec
 CONSTANTS
- Texts = {"ode", "ode2", "v11", "imp_ok", "conn", "parseerr"}
+ Texts = {"ode", "ode2", "v11", "parseerr"}
  MaxLen = 4
  Insts = {"fresh", "reused"}
  OpsUsed = {"parse", "validate", "analyse", "generate", "print", "resolve", "flatten"}
